@@ -130,3 +130,10 @@ Print Assumptions C07_size_guard_sound.
 Print Assumptions C07_repeat_never_panics.
 Print Assumptions C07_panic_sites_accounted.
 Print Assumptions C07_refuted_pinned_size_guard.
+Print Assumptions C07_refuted_pinned_div.
+Print Assumptions C07_refuted_pinned_mod.
+Print Assumptions C07_refuted_pinned_shift.
+Print Assumptions C07_refuted_pinned_slice.
+Print Assumptions C07_refuted_pinned_repeat.
+Print Assumptions C07_refuted_pinned_string_repeat.
+Print Assumptions C07_refuted_pinned_range.
